@@ -7,7 +7,9 @@
   nearest  : C17_nearest, C17_nearest_integer_points
   bilinear : C17_bilinear_access (all nine cases, all w,h ≥ 1), C17_bilinear_convex (any ordered field),
              C17_convex_between, C17_bilinear_value_between, C17_bilinear_integer_points
-  resample : C17_resample_loop, C17_resize_identity
+  resample : C17_resample_loop, C17_resize_identity, C17_resize_same_size
+  summary  : C17_bilinear_sampler (outside iff, access, surrounding, convex, at most four), C17_samplers_inside_domain,
+             C17_trunc_between, C17_bilinear_at_most_four
   matrix   : C17_matrix_assoc, C17_matrix_one, C17_matrix_apply_mul, C17_matrix_inverse, C17_matrix_maps_back,
              C17_translate_scale_compose, C17_rotate_compose   (any field; cos/sin enter as an opaque pair)
   Floating point: every theorem is about exact arithmetic (Rat / an arbitrary field); the code's IEEE operation
@@ -417,6 +419,103 @@ theorem C17_resize_identity {K : Type} [Field K] [LinearOrder K] [IsStrictOrdere
   have ha : a ≠ 0 := ne_of_gt h1
   have hb : b ≠ 0 := ne_of_gt h2
   apply M32_ext <;> simp only [M32.mul, M32.translate, M32.scale, M32.rotate, M32.one] <;> field_simp <;> ring
+
+
+/-! ## summaries -/
+
+/-- The bilinear sampler as a whole (exact arithmetic, every view of at least 1×1, every rational point n/D):
+    it reports "outside" exactly when ⌊p⌋ ∉ [−1,w)×[−1,h); otherwise it reads only pixels of the view that surround
+    the point, with non-negative weights summing to 1, and accumulates their weighted sum. -/
+theorem C17_bilinear_sampler (w h : Int) (src : Int → Int → Int) (nx ny D : Int) (hD : 0 < D) (hw : 1 ≤ w) (hh : 1 ≤ h) :
+    (bilinearQ w h src nx ny D = none ↔ ¬ (-D ≤ nx ∧ nx < w * D ∧ -D ≤ ny ∧ ny < h * D)) ∧
+    (∀ taps acc, bilinearQ w h src nx ny D = some (taps, acc) →
+      (∀ t ∈ taps, 0 ≤ t.x ∧ t.x < w ∧ 0 ≤ t.y ∧ t.y < h ∧
+        (t.x = ifloorQ nx D ∨ t.x = ifloorQ nx D + 1) ∧ (t.y = ifloorQ ny D ∨ t.y = ifloorQ ny D + 1) ∧ 0 ≤ t.w) ∧
+      (taps.map (·.w)).sum = 1 ∧ 1 ≤ taps.length ∧ taps.length ≤ 4 ∧ acc = accQ src taps) := by
+  have fx := C17_ifloor_spec nx D hD
+  have fy := C17_ifloor_spec ny D hD
+  have hout : bilinearOutside w h (ifloorQ nx D) (ifloorQ ny D) = true ↔ ¬ (-D ≤ nx ∧ nx < w * D ∧ -D ≤ ny ∧ ny < h * D) := by
+    unfold bilinearOutside
+    simp only [Bool.or_eq_true, decide_eq_true_eq]
+    constructor
+    · intro hc hn
+      rcases hc with ((hc | hc) | hc) | hc <;> nlinarith
+    · intro hn
+      by_contra hc
+      simp only [not_or, not_lt, ge_iff_le, not_le] at hc
+      apply hn
+      obtain ⟨⟨⟨c1, c2⟩, c3⟩, c4⟩ := hc
+      refine ⟨by nlinarith, by nlinarith, by nlinarith, by nlinarith⟩
+  constructor
+  · rw [← hout]; unfold bilinearQ
+    by_cases ho : bilinearOutside w h (ifloorQ nx D) (ifloorQ ny D) = true
+    · simp [ho]
+    · simp [ho]
+  · intro taps acc hres
+    have hres' := hres
+    unfold bilinearQ at hres
+    by_cases ho : bilinearOutside w h (ifloorQ nx D) (ifloorQ ny D) = true
+    · simp [ho] at hres
+    · simp only [ho, Bool.false_eq_true, if_false, Option.some.injEq, Prod.mk.injEq] at hres
+      obtain ⟨ht, ha⟩ := hres
+      have hof : bilinearOutside w h (ifloorQ nx D) (ifloorQ ny D) = false := by simpa using ho
+      have hDq : (0 : Rat) < (D : Rat) := by exact_mod_cast hD
+      have cx : (0 : Rat) ≤ ((nx - ifloorQ nx D * D : Int) : Rat) / (D : Rat) ∧ ((nx - ifloorQ nx D * D : Int) : Rat) / (D : Rat) ≤ 1 := by
+        constructor
+        · apply div_nonneg _ (le_of_lt hDq); exact_mod_cast (by nlinarith : (0 : Int) ≤ nx - ifloorQ nx D * D)
+        · rw [div_le_iff₀ hDq, one_mul]; exact_mod_cast (by nlinarith : nx - ifloorQ nx D * D ≤ D)
+      have cy : (0 : Rat) ≤ ((ny - ifloorQ ny D * D : Int) : Rat) / (D : Rat) ∧ ((ny - ifloorQ ny D * D : Int) : Rat) / (D : Rat) ≤ 1 := by
+        constructor
+        · apply div_nonneg _ (le_of_lt hDq); exact_mod_cast (by nlinarith : (0 : Int) ≤ ny - ifloorQ ny D * D)
+        · rw [div_le_iff₀ hDq, one_mul]; exact_mod_cast (by nlinarith : ny - ifloorQ ny D * D ≤ D)
+      have hacc := C17_bilinear_access w h (ifloorQ nx D) (ifloorQ ny D)
+        (((nx - ifloorQ nx D * D : Int) : Rat) / (D : Rat)) (((ny - ifloorQ ny D * D : Int) : Rat) / (D : Rat)) hw hh hof
+      have hconv := C17_bilinear_convex w h (ifloorQ nx D) (ifloorQ ny D) _ _ cx.1 cx.2 cy.1 cy.2
+      have hlen := C17_bilinear_at_most_four w h (ifloorQ nx D) (ifloorQ ny D)
+        (((nx - ifloorQ nx D * D : Int) : Rat) / (D : Rat)) (((ny - ifloorQ ny D * D : Int) : Rat) / (D : Rat))
+      rw [ht] at hacc hconv hlen
+      refine ⟨fun t htm => ?_, hconv.2, hlen.2, hlen.1, by rw [← ha, ht]⟩
+      obtain ⟨a1, a2, a3, a4, a5, a6⟩ := hacc t htm
+      exact ⟨a1, a2, a3, a4, a5, a6, hconv.1 t htm⟩
+
+/-- inside the view's own domain [0,w−1]×[0,h−1] neither sampler reports "outside" -/
+theorem C17_samplers_inside_domain (w h : Int) (src : Int → Int → Int) (nx ny D : Int) (hD : 0 < D) (hw : 1 ≤ w) (hh : 1 ≤ h)
+    (hx : 0 ≤ nx ∧ nx ≤ (w - 1) * D) (hy : 0 ≤ ny ∧ ny ≤ (h - 1) * D) :
+    bilinearQ w h src nx ny D ≠ none ∧ nearestQ w h nx ny D ≠ none := by
+  constructor
+  · intro hn
+    have := (C17_bilinear_sampler w h src nx ny D hD hw hh).1.mp hn
+    apply this
+    refine ⟨by nlinarith, by nlinarith, by nlinarith, by nlinarith⟩
+  · intro hn
+    have hs := (C17_nearest w h nx ny D hD).2.mp hn
+    have rx := C17_iround_spec nx D hD
+    have ry := C17_iround_spec ny D hD
+    apply hs
+    have bx := rx.2.2.1 hx.1
+    have by' := ry.2.2.1 hy.1
+    refine ⟨?_, ?_, ?_, ?_⟩
+    · by_contra hc; have : iroundQ nx D ≤ -1 := by omega
+      nlinarith [rx.1, rx.2.1]
+    · by_contra hc; have : w ≤ iroundQ nx D := by omega
+      nlinarith [rx.1, rx.2.1]
+    · by_contra hc; have : iroundQ ny D ≤ -1 := by omega
+      nlinarith [ry.1, ry.2.1]
+    · by_contra hc; have : h ≤ iroundQ ny D := by omega
+      nlinarith [ry.1, ry.2.1]
+
+example : (0 : Int) ≤ 5 ∧ 5 ≤ (3 - 1) * 8 := by decide
+
+/-- `resize_view` to the same size is the identity (exact arithmetic): the matrix is the identity, so destination
+    pixel (x,y) samples the source at exactly (x,y), where both samplers return the source pixel itself -/
+theorem C17_resize_same_size (w h : Int) (src : Int → Int → Int) (x y : Int) (hx : 0 ≤ x ∧ x < w) (hy : 0 ≤ y ∧ y < h) :
+    M32.apply (M32.resize (w : Rat) (h : Rat) (w : Rat) (h : Rat) 0) ((x : Rat), (y : Rat)) = ((x : Rat), (y : Rat)) ∧
+    (∃ taps, bilinearQ w h src (x * 1) (y * 1) 1 = some (taps, (src x y : Rat))) ∧
+    nearestQ w h (x * 1) (y * 1) 1 = some (x, y) := by
+  refine ⟨?_, ?_, C17_nearest_integer_points w h x y 1 (by decide) hx hy⟩
+  · rw [C17_resize_identity]; exact (C17_matrix_one (M32.one) _).2.2
+  · obtain ⟨taps, h1, _⟩ := C17_bilinear_integer_points w h src x y 1 (by decide) hx hy
+    exact ⟨taps, h1⟩
 
 
 end GilVerif.Props.C17
